@@ -5,6 +5,7 @@ import Driver.Sfwrap
 import Driver.Caches
 import Driver.Validators
 import Driver.Aead
+import Driver.Config
 open Lean Sso.Drv
 
 /-! `ssoverif <trace.jsonl>`: one verdict line per case, then a summary line. -/
@@ -17,6 +18,7 @@ def dispatch (e : String) (j : Json) : Except String Verdict :=
   | "caches" => Sso.Drv.Caches.checkCase j
   | "validators" => Sso.Drv.Validators.checkCase j
   | "aead" => Sso.Drv.Aead.checkCase j
+  | "config" => Sso.Drv.Config.checkCase j
   | _ => throw s!"unknown engine {e}"
 
 partial def loop (h : IO.FS.Stream) (out : IO.FS.Stream) (n bad : Nat) : IO (Nat × Nat) := do
